@@ -59,7 +59,7 @@ SemLaws ==
   /\ cs.t = "fd" => \A k \in 1..Len(cs.old) : LawFdCopy(cs.old[k]) /\ LawFdTranslate(cs.old[k], <<3, 2>>)
 \* uniform_discr_fromdiscr as written resolves every axis to a documented partition
 FdCaseRefines == cs.t = "fd" => \A k \in 1..Len(cs.old) : FdRefines(cs.old[k], cs.args[k], cs.nob[k][1], cs.nob[k][2])
-\* ... but not the value type (open finding): the cells are exactly those of FdDTypeKnown
+\* ... and the value type (repaired by ea69a05: FdDTypeKnown is empty, i.e. the transcription agrees everywhere)
 FdDTypeCells == cs.t = "fd" => (FdImplDType(cs.tdt, cs.gdt) # FdDType(cs.tdt, cs.gdt) <=> FdDTypeKnown(cs.tdt, cs.gdt))
 \* histories: the expectation of every call is a function of its own arguments; equal calls have equal expectations;
 \* layer C (stateless) yields it outside the known cells
